@@ -3,7 +3,6 @@ package engine
 import (
 	"fmt"
 	"math"
-	"sync/atomic"
 
 	gocvss20 "github.com/pandatix/go-cvss/20"
 
@@ -73,7 +72,7 @@ func v2zero() spec.Assignment { return make(spec.Assignment, len(spec.V2.Metrics
 func CheckC05(r *Report) {
 	r.Rule = "E3 scorespace: all 139,968,000 v2.0 metric assignments built through Set (odometer), BaseScore/TemporalScore/EnvironmentalScore must lie in the set of conforming tenths of the exact rational evaluation of the guide equations (both neighbours at exact half-way points, sets propagated through the cascaded roundings), Impact/Exploitability within 1e-9 relative of the exact sub-scores; non-trivial = assignment whose environmental score set differs from its base score set"
 	r.Bound = "complete: every v2.0 metric assignment"
-	var ties, nontrivial, negEnv atomic.Int64
+	var ties, nontrivial, negEnv Counter
 	Iterate(I20, allDims(spec.V2), v2zero(), 16, func(idx int, a spec.Assignment, o *gocvss20.CVSS20) {
 		if key, exp, obs := v2CheckObj(a, o); key != "" {
 			ac := a.Clone()
@@ -83,13 +82,13 @@ func CheckC05(r *Report) {
 		}
 		w := spec.V2Score(a)
 		if len(w.Base) > 1 || len(w.Temporal) > 1 || len(w.Env) > 1 {
-			ties.Add(1)
+			ties.Add(idx, 1)
 		}
 		if len(w.Env) != len(w.Base) || w.Env[0] != w.Base[0] {
-			nontrivial.Add(1)
+			nontrivial.Add(idx, 1)
 		}
 		if w.Env[0] < 0 {
-			negEnv.Add(1)
+			negEnv.Add(idx, 1)
 		}
 	}, func(a spec.Assignment, why string) {
 		r.Violation(Case{Kind: "v2-score", Key: "v2.0/score/cannot-build", Expected: "object built by Set reads back", Observed: why, Args: map[string]any{"vector": spec.V2.Full(a)}}, nil)
